@@ -57,7 +57,9 @@ def gen(rnd):
                               'hooks.after_spawn', 'uid_free', 'executable']
         for k in rnd.sample(opts, rnd.randint(0, 7)):
             t = TYPED.get(k)
-            if t == 'int':
+            if t == 'int' and k == 'priority':
+                v = rnd.choice(['0', '3', '-5', '-1', '12', '+2'])      # any integer, also a signed one
+            elif t == 'int':
                 v = str(rnd.randint(0, 9))
             elif t == 'float':
                 v = rnd.choice(['3', '2.5', '0', '0.25'])
